@@ -43,6 +43,38 @@ CONTRACT = vmprogs.ReadOnlyContract()
 CONTRACTS = {vmprogs.CID: CONTRACT, vmprogs.TID: CONTRACT}
 
 
+# embedder plugins used by both runs (pure functions of what they are given)
+def ext_rehash(tape, stack, cache):
+    """idempotent signature extension: sigfield7 := sha256(sigfield1)"""
+    cache['sigfield7'] = hashlib.sha256(cache.get('sigfield1', b'')).digest()
+
+
+def ext_count(tape, stack, cache):
+    """NOT idempotent: every run appends one byte to sigfield6 - the signed
+    message then depends on exactly how often the extensions ran"""
+    cache['sigfield6'] = cache.get('sigfield6', b'') + b'+'
+
+
+def ct_prefix(tape, stack, cache):
+    t, fld = stack.peek(0), stack.peek(1)
+    return fld[:len(t)] == t and len(t) > 0
+
+
+def ct_reverse(tape, stack, cache):
+    return stack.peek(0) == stack.peek(1)[::-1]
+
+
+PLUGSETS = [
+    {},
+    {'signature_extensions': [ext_rehash]},
+    {'signature_extensions': [ext_count]},
+    {'signature_extensions': [ext_rehash, ext_count]},
+    {'check_template': [ct_prefix]},
+    {'check_template': [ct_prefix, ct_reverse]},
+    {'signature_extensions': [ext_count], 'check_template': [ct_reverse]},
+]
+
+
 def shards(tier, seed):
     return [{'shard': i, 'of': NSH} for i in range(NSH)]
 
@@ -75,7 +107,8 @@ def gen_case(rng):
                'max_item_size': rng.choice((33, 64, 1024)),
                'limit': rng.choice((1, 2, 5, 128))}
     return {'prog': prog, 'kind': kind, 'cache': vmprogs.initial_cache(rng),
-            'flags': flags, **lim}
+            'flags': flags, 'plugset': rng.randrange(1, len(PLUGSETS))
+            if rng.random() < 0.3 else 0, **lim}
 
 
 def run_real(case):
@@ -85,8 +118,9 @@ def run_real(case):
     try:
         _, stack, cache = functions.run_script(
             case['prog'], copy.deepcopy(case['cache']), dict(CONTRACTS),
-            dict(case['flags']), {}, case['max_items'], case['max_item_size'],
-            case['limit'])
+            dict(case['flags']),
+            {k: list(v) for k, v in PLUGSETS[case.get('plugset', 0)].items()},
+            case['max_items'], case['max_item_size'], case['limit'])
     except BaseException as e:
         return 'error', type(e).__name__, None
     return 'ok', list(stack.deque), {k: v for k, v in cache.items()
@@ -101,7 +135,8 @@ def run_model(case):
         counter[0] += 1
         return out
     cfg = vm.Config(case['max_items'], case['max_item_size'], case['limit'],
-                    case['flags'], CONTRACTS, NOW, entropy)
+                    case['flags'], CONTRACTS, NOW, entropy,
+                    PLUGSETS[case.get('plugset', 0)])
     cache = {'timestamp': NOW, **copy.deepcopy(case['cache'])}
     status, stack, c, m = vm.run(case['prog'], cache, cfg)
     if status == 'ok':
@@ -144,6 +179,7 @@ def dg(case) -> bytes:
 def judge(ctx, case):
     ctx.evaluated()
     ctx.tab('kind', case['kind'])
+    ctx.tab('plugset', case.get('plugset', 0))
     try:
         mstatus, mstack, mcache, m = run_model(case)
     except vm.Unspecified as u:
